@@ -1050,7 +1050,7 @@ class LoopUnroller(ast.NodeTransformer):
             return node
         if any(isinstance(e, ast.Starred) for e in it.elts) or not all(_pure_simple(e) for e in it.elts):
             return node
-        if _has_break(node.body) or not _loop_free_of(node.body, (ast.Yield, ast.YieldFrom)):
+        if _has_break(node.body):
             return node
         tnames = {t.id for t in ast.walk(node.target) if isinstance(t, ast.Name)}
         if not all(isinstance(t, (ast.Name, ast.Tuple, ast.List)) for t in ast.walk(node.target) if not isinstance(t, (ast.Store, ast.Load))):
